@@ -482,6 +482,17 @@ class C13(ConnProp):
 
     def server_cases(self, rng, tier):
         out = []
+        # a limit raised above the default before the client connects: an Expect request whose length lies between the default
+        # and the raised limit gets its 100 Continue and is yielded
+        for _ in range(10 if tier == 'quick' else 200):
+            L = rng.choice([60000, 102400, 2 ** 32 - 1])
+            n = rng.choice([51201, 52000, 60000])
+            ver = rng.choice([b'HTTP/1.0', b'HTTP/1.1'])
+            head = b'PUT /c0/r0 ' + ver + b'\r\nContent-Length: %d\r\nExpect: 100-continue\r\n\r\n' % n
+            ops = [[10, L], [0, 0], [11, 4], [1, 0, head], [11, 6], [5, 0]]
+            due = [(len(ops) - 1, 1)]
+            ops += [[1, 0, b'b' * n], [11, 90], [12, 0], [11, 8], [5, 0]]
+            out.append(([9, 0, ops], {'kind': 'server-expect', 'due': due, 'nreq': 1, 'want': ['srv']}))
         for _ in range(150 if tier == 'quick' else 6000):
             ops = [[0, 0], [11, 4]]
             due = []
@@ -615,9 +626,21 @@ class C04(ConnProp):
             n = rng.choice([min(L1, L2) + 1, max(L1, L2), max(L1, L2) + 1, min(L1, L2), (L1 + L2) // 2 or 1])
             if n == 0:
                 n = 1
-            body = b'z' * min(n, 4000)
+            r = rng.random()
+            if r < 0.15:
+                # numbers beyond 31 bits in the 400 (declared, not sent)
+                n = rng.choice([2 ** 31, 2 ** 31 + 5, 2 ** 32 - 1, 3000000000])
+            elif r < 0.3:
+                # a limit raised above the default: a connection accepted afterwards uses it
+                L1, L2 = rng.choice([(60000, 4), (102400, 51200), (4, 60000), (51200, 52000)])
+                n = rng.choice([51201, 52000, 60000])
+            big = n > 4000
 
             def req(c, k):
+                # small bodies are sent whether or not the limit admits them (the rest of a rejected request is then
+                # parsed as garbage); large ones only when the connection's limit admits them
+                lim = (L1, L2)[c]
+                body = b'z' * (n if (not big or n <= lim) else 0)
                 return b'PUT /c%d/r%d HTTP/1.1\r\nContent-Length: %d\r\n\r\n' % (c, k, n) + body
             ops = [[10, L1], [0, 0], [11, 4]]
             if rng.random() < 0.5:
@@ -633,8 +656,8 @@ class C04(ConnProp):
                 sends[0] = [1, 0, req(0, 0)[len(pref):]]
             rng.shuffle(sends)
             for sd in sends:
-                ops += [sd, [11, 6]]
-            ops += [[12, 0], [12, 0], [11, 6], [5, 0], [5, 1]]
+                ops += [sd, [11, 6 if n <= 4000 else 80]]
+            ops += [[12, 0], [12, 0], [11, 80], [12, 0], [12, 0], [11, 6], [5, 0], [5, 1]]
             out.append(([9, 0, ops], {'kind': 'server-limit', 'limits': [L1, L2], 'n': n, 'near': True}))
         # unterminated lines: rejected exactly when BUF bytes of them have arrived
         for k in ([1022, 1023, 1024, 1025] if True else []):
